@@ -80,8 +80,8 @@ T1_FILES = {
     'Properties/T1Sql.v': ['C19', 'C15'],
     'Proofs/GenAggrProofs.v': ['C04', 'C05', 'C03'],
     'Properties/T1Aggr.v': ['C04', 'C05', 'C03'],
-    'Proofs/GenQFrameOpsProofs.v': ['C08', 'C10', 'C06', 'C01'],
-    'Properties/T1QFrame.v': ['C08', 'C10', 'C06', 'C01'],
+    'Proofs/GenQFrameOpsProofs.v': ['C08', 'C10', 'C06', 'C01', 'C03', 'C07', 'C09'],
+    'Properties/T1QFrame.v': ['C08', 'C10', 'C06', 'C01', 'C03', 'C07', 'C09'],
     'Proofs/GenExprTreeProofs.v': ['C07', 'C10'],
     'Properties/T1Expr.v': ['C07', 'C10'],
     'Proofs/GenIoCsvProofs.v': ['C12', 'C13', 'C17'],
@@ -98,7 +98,7 @@ T1_PROP_FILES = {
     'Properties/T1RyuText.v': ['C16', 'C14'],
     'Properties/T1Sql.v': ['C19', 'C15'],
     'Properties/T1Aggr.v': ['C04', 'C05', 'C03'],
-    'Properties/T1QFrame.v': ['C08', 'C10', 'C06', 'C01'],
+    'Properties/T1QFrame.v': ['C08', 'C10', 'C06', 'C01', 'C03', 'C07', 'C09'],
     'Properties/T1Expr.v': ['C07', 'C10'],
     'Properties/T1IoCsv.v': ['C12', 'C13', 'C17'],
     'Properties/T1Enum.v': ['C17', 'C14', 'C13'],
